@@ -128,6 +128,10 @@ def locate(toks, path):
                 if kind == 'macro_rules':
                     name_idx = kw + 2
                 if name_idx < end and toks[name_idx].text == want[1]:
+                    # further tokens of the segment (e.g. `fn handle_error<A>`) must follow the name: tells overloads in different impls apart
+                    extra = want[2:]
+                    if extra and [t.text for t in toks[name_idx + 1:name_idx + 1 + len(extra)]] != extra:
+                        continue
                     cands.append((start, kw, end))
         last = si == len(segs) - 1
         if len(cands) > 1:
